@@ -353,7 +353,8 @@ where
     where
         I: IntoIterator<Item = T>,
     {
-        let memory_items = self.config.memory_buffer_size / std::mem::size_of::<T>().max(1);
+        // at least one element, or nothing is ever read from the input
+        let memory_items = (self.config.memory_buffer_size / std::mem::size_of::<T>().max(1)).max(1);
         let mut heap = BinaryHeap::with_capacity(memory_items);
         let mut input_iter = input.into_iter();
         let mut current_run = 0;
